@@ -84,16 +84,27 @@ def check_prettyprint(rep, prog, ascii_only):
         raise AnalysisError("prettyPrint: expected exactly one line rewrite, found %d" % len(stores))
     st = stores[0]
     base, idx, val = st.data
-    line = Op("getitem", lines, idx)
     parts = flat_parts(val)
-    okw = len(parts) == 3 and isinstance(parts[0], Op) and parts[0].op == "getslice" and parts[0].args[0] == line and parts[0].args[1] == NONE \
+    line = parts[0].args[0] if parts and isinstance(parts[0], Op) and parts[0].op == "getslice" else None
+
+    def elem_index(t):
+        """t is the i-th element of `lines` -> i (a term)"""
+        if isinstance(t, Op) and t.op in ("getitem", "elem") and t.args[0] == lines:
+            return t.args[1]
+        if isinstance(t, Op) and t.op == "unpack" and t.args[1] == Const(1) and isinstance(t.args[0], Op) and t.args[0].op == "elem" and \
+                t.args[0].args[0] == Op("enumerate", lines):
+            return Op("unpack", t.args[0], Const(0))
+        return None
+    li = elem_index(line) if line is not None else None
+    same_slot = li is not None and (idx == li or (isinstance(li, Sym) and idx == li))
+    okw = line is not None and len(parts) == 3 and parts[0].args[1] == NONE \
         and isinstance(parts[2], Op) and parts[2].op == "getslice" and parts[2].args[0] == line and parts[2].args[2] == NONE \
         and parts[0].args[2] == parts[2].args[1]
     fill = parts[1] if len(parts) == 3 else None
     okfill = fill is not None and ((isinstance(fill, Op) and fill.op == "strmul" and Const(" ") in fill.args) or (is_const(fill, str) and set(fill.v) <= {" "}))
-    rep.check(okw and okfill and base == lines and idx == line.args[1], "C06.R2.whitespace-only",
-              "a rewritten line is line[:k] + blanks + line[k:] (nothing but spaces inserted, nothing removed)", where, st.node,
-              "the alignment pass does more than insert blanks at one position: %r" % (val,), node=st.node)
+    rep.check(okw and okfill and base == lines and same_slot, "C06.R2.whitespace-only",
+              "a rewritten line is line[:k] + blanks + line[k:] stored back into its own slot (nothing but spaces inserted, nothing removed)", where, st.node,
+              "the alignment pass does more than insert blanks at one position of the same line: %r" % (val,), node=st.node)
     if not okw:
         return
     k = parts[0].args[2]
